@@ -21,6 +21,8 @@ def main():
     if a.replay:
         from pv import replay
         return replay.run(a.prop, a.replay)
+    if a.tier == 'thorough':
+        os.environ.setdefault('PV_CROSSCHECK', '1')      # every discharged VC is also shown to cvc5
     report = core.Report(a.prop, a.tier, seed)
     mod.run(report)
     return core.finish(report)
